@@ -5,7 +5,6 @@ From V Require Import Base.Int Base.IO Base.Utf8 Base.Lift Model.Scan Model.Pars
 From V Require Model.Date Model.Time Model.C19 Model.Parsed Proofs.C19.
 Import ListNotations.
 Open Scope Z_scope.
-Set Default Timeout 60.
 
 (** * FixedOffset: every whole-minute offset, by complete enumeration *)
 Definition PRZ_eqb (r : PR Z) (v : Z) : bool :=
